@@ -60,6 +60,7 @@ impl Case {
 pub struct Obs {
     pub children: u64,
     pub faults_fired: u64,
+    pub hard_fired: u64,
 }
 
 pub fn check(case: &Case) -> Result<Option<Obs>, (String, String)> {
@@ -128,11 +129,17 @@ pub fn check(case: &Case) -> Result<Option<Obs>, (String, String)> {
     children += 1;
     let mut faulty = Child::new(case.profile, &args);
     if case.via_stdin { faulty.stdin = In::File("x.bc".into()); }
-    faulty.shim = Some(ShimCfg { seed: case.hash_seed, plan: case.plan.clone(), clock: None, junk: 0, budget: Some(4_000_000) });
+    // call indices relative to the number of read calls the fault-free load made: `$-1` = its last call (the one that reports
+    // end-of-file), `$-2` the one before, `$/2` the middle one
+    let n_reads = clean_r.trace.lines().filter(|l| l.starts_with(if case.via_stdin { "R i " } else { "R r " })).count();
+    let plan = case.plan.replace("$-1", &n_reads.saturating_sub(1).to_string()).replace("$-2", &n_reads.saturating_sub(2).to_string()).replace("$/2", &(n_reads / 2).to_string());
+    let hard = plan.contains(":x:") || plan.contains(":y:");
+    faulty.shim = Some(ShimCfg { seed: case.hash_seed, plan: plan.clone(), clock: None, junk: 0, budget: Some(4_000_000) });
     let r = run_child(&dir, &faulty);
     children += 1;
     cleanup(&dir);
     let fired = r.trace.lines().filter(|l| l.starts_with("R ") && (l.ends_with("cut") || l.ends_with("-> E4"))).count() as u64;
+    let hard_fired = r.trace.lines().filter(|l| l.starts_with("R ") && l.contains("-> E") && !l.ends_with("-> E4")).count() as u64;
     if r.exit == Exit::Timeout || clean_r.exit == Exit::Timeout { return Ok(None); }
     let tag = if case.writer == "foreign" { "L" } else { "R" };
     if r.budget_exceeded() {
@@ -142,6 +149,15 @@ pub fn check(case: &Case) -> Result<Option<Obs>, (String, String)> {
         return Err((format!("{}8:loader_died_by_signal", tag), r.exit.show()));
     }
     let (want_exit, want_out) = if case.action == "execute" { (&direct.exit, &direct.stdout) } else { (&Exit::Code(0), &clean_r.stdout) };
+    if hard {
+        // the medium failed under the loader: the command may fail (and then nothing more is claimed), but a command that
+        // reports success must have loaded, and run or listed, exactly the saved program
+        if hard_fired > 0 && r.exit.is_success() && (!want_exit.is_success() || &r.stdout != want_out) {
+            return Err((format!("{}10:success_reported_after_read_error_but_a_different_program_loaded", tag), format!("`fml {}{}` exited 0 after a hard read error (plan `{}`) with {} bytes of stdout; the saved program gives {} with {} bytes",
+                case.action, if case.via_stdin { " < x.bc" } else { " x.bc" }, plan, r.stdout.len(), want_exit.show(), want_out.len())));
+        }
+        return Ok(Some(Obs { children, faults_fired: fired, hard_fired }));
+    }
     if &r.exit != want_exit || &r.stdout != want_out {
         let schedule = &clean_r.exit == want_exit && (case.action != "execute" || &clean_r.stdout == want_out);
         let at = first_difference(&r.stdout, want_out).unwrap_or(0);
@@ -155,7 +171,7 @@ pub fn check(case: &Case) -> Result<Option<Obs>, (String, String)> {
         return Err((oracle, format!("`fml {}{}` on the {}-written image with plan `{}`: {} with {} bytes of stdout; expected {} with {} bytes; first difference at {}",
             case.action, if case.via_stdin { " < x.bc" } else { " x.bc" }, case.writer, case.plan, r.exit.show(), r.stdout.len(), want_exit.show(), want_out.len(), at)));
     }
-    Ok(Some(Obs { children, faults_fired: fired }))
+    Ok(Some(Obs { children, faults_fired: fired, hard_fired: 0 }))
 }
 
 fn minimise(case: &Case, oracle: &str) -> Case {
@@ -204,6 +220,12 @@ pub fn run_layer_b(property: &str, seed: u64, tier: &str, ev: &mut Evidence) -> 
             4 => format!("{c}:0:s:1;{c}:1:s:2;{c}:2:s:3;{c}:3:e:0", c = cls),
             _ => String::new(),
         };
+        // one case in eight: the medium fails under the loader (EIO, sticky) at its first, last, last-but-one or middle read
+        let plan = if rng.below(8) == 0 {
+            let at = *rng.pick(&["0", "$-1", "$-1", "$-2", "$/2"]);
+            let kind = if rng.below(3) == 0 { 'y' } else { 'x' }; // one-off or sticky
+            if rng.coin() { format!("{}:{}:{}:5", cls, at, kind) } else { format!("{c}:*:l:{k};{c}:{a}:{y}:5", c = cls, k = rng.pick(&[1u32, 7, 64, 4096]), a = at, y = kind) }
+        } else { plan };
         let case = Case {
             property: property.to_string(),
             spec,
@@ -226,6 +248,7 @@ pub fn run_layer_b(property: &str, seed: u64, tier: &str, ev: &mut Evidence) -> 
         (case, r)
     });
     let (mut children, mut fired, mut with_faults) = (0u64, 0u64, 0u64);
+    let mut with_hard = 0u64;
     let mut raw = Vec::new();
     for (case, r) in outs {
         ev.evaluations += 1;
@@ -233,6 +256,7 @@ pub fn run_layer_b(property: &str, seed: u64, tier: &str, ev: &mut Evidence) -> 
             Ok(Some(o)) => {
                 children += o.children;
                 fired += o.faults_fired;
+                if o.hard_fired > 0 { with_hard += 1; }
                 if o.faults_fired > 0 {
                     with_faults += 1;
                     ev.distinct.insert(digest_of(&(digest_bytes(case.spec.source().unwrap_or_default().as_bytes()), case.profile, &case.writer, &case.action, case.via_stdin, &case.plan)));
@@ -249,6 +273,7 @@ pub fn run_layer_b(property: &str, seed: u64, tier: &str, ev: &mut Evidence) -> 
     ev.count("layer_b.children_spawned", children);
     ev.count("layer_b.read_faults_fired_on_input_fd", fired);
     ev.count("layer_b.load_cycles_with_read_faults_fired", with_faults);
+    ev.count("layer_b.load_cycles_with_hard_read_error_fired", with_hard);
     let mut seen: Vec<String> = Vec::new();
     let mut violations = Vec::new();
     for (case, oracle, detail) in raw {
